@@ -64,19 +64,15 @@ MkWorld(n, rd, E, F, combo) ==
             {Spell(EdgeKind(combo[2], e[1], e[2]), names[e[2]]) : e \in {x \in E : x[1] = k}},
             k \in F)]]
 
-Structures(n) ==
-  UNION { {[n |-> n, rd |-> rd, E |-> E] : E \in SUBSET EdgePairs(n, rd)} : rd \in RedirFns(n) }
-AllStructures == UNION {Structures(n) : n \in 1..MaxN}
-
-WorldSet ==
-  UNION { {MkWorld(s.n, s.rd, s.E, F, c) : F \in SUBSET (1..s.n), c \in Combos} : s \in AllStructures }
-
 CombosQ == {<<"A", "exact">>, <<"A", "mixed">>, <<"B", "lower">>, <<"B", "mixed2">>}
 CombosAll == {"A", "B"} \X {"exact", "lower", "under", "mixed", "mixed2"}
 CombosExact == {<<"A", "exact">>}
 CombosB == {<<"B", "mixed">>}
 
-MCInit == \E W \in WorldSet : AInit(W)
+\* (nested quantifiers, not one big set: TLC enumerates them lazily)
+MCInit ==
+  \E n \in 1..MaxN : \E rd \in RedirFns(n) : \E E \in SUBSET EdgePairs(n, rd) :
+    \E F \in SUBSET (1..n) : \E c \in Combos : AInit(MkWorld(n, rd, E, F, c))
 MCSpec == MCInit /\ [][ANext]_avars /\ WF_avars(ANext)
 
 \* hand-made world for the Demo configurations: B <-> C include each other, B includes
